@@ -3,6 +3,7 @@ package core
 import (
 	"bytes"
 	"context"
+	"errors"
 	"fmt"
 	"os"
 	"os/exec"
@@ -56,7 +57,7 @@ func Exec(dir string, env []string, timeout time.Duration, stdin string, name st
 	cmd.Env = env
 	cmd.SysProcAttr = &syscall.SysProcAttr{Setpgid: true}
 	cmd.Cancel = func() error { return syscall.Kill(-cmd.Process.Pid, syscall.SIGKILL) }
-	cmd.WaitDelay = 2 * time.Second
+	cmd.WaitDelay = 10 * time.Second
 	var so, se bytes.Buffer
 	cmd.Stdout, cmd.Stderr = &so, &se
 	if stdin != "" {
@@ -70,9 +71,16 @@ func Exec(dir string, env []string, timeout time.Duration, stdin string, name st
 	if err != nil {
 		if ee, ok := err.(*exec.ExitError); ok {
 			r.Exit = ee.ExitCode()
+		} else if errors.Is(err, exec.ErrWaitDelay) && cmd.ProcessState != nil {
+			// the process exited (successfully) but its output pipes were not drained within
+			// WaitDelay on a loaded machine: the exit status is the observation
+			r.Exit = cmd.ProcessState.ExitCode()
 		} else {
+			// the command could not be run or waited for: that is a failure of the machinery,
+			// never an observation of the program (callers treat TimedOut as inconclusive)
 			r.Exit = -1
 			r.Err = err
+			r.TimedOut = true
 		}
 	}
 	return r
@@ -107,6 +115,7 @@ type CompileOpt struct {
 	Alive   bool     // force every declaration alive (DCE off) – in-process only
 	MapFile bool     // write out.js.map
 	Tags    []string // user build tags
+	TagSep  string   // separator of the tags on the CLI command line (default " ")
 	Out     string   // output file name (default out.js)
 	Pkg     string   // package dir relative to the module root (default ".")
 	Files   []string // build these files as an ephemeral main package (BuildFiles)
@@ -164,7 +173,11 @@ func (c *Ctx) CompileJS(dir string, o CompileOpt) CompileRes {
 			args = append(args, "-m")
 		}
 		if len(o.Tags) > 0 {
-			args = append(args, "--tags", strings.Join(o.Tags, " "))
+			sep := o.TagSep
+			if sep == "" {
+				sep = " "
+			}
+			args = append(args, "--tags", strings.Join(o.Tags, sep))
 		}
 		if len(o.Files) > 0 {
 			args = append(args, o.Files...)
